@@ -5,4 +5,4 @@ From Coq Require Extraction ExtrOcamlBasic.
 From Sv Require Import PyTime Timer Job Sched Table Aio Conc.
 Extraction "model.ml" step sched_init run job_datetime has_attempts utc
   m_next_daily m_next_hourly m_next_minutely m_next_weekly m_days_to_weekday
-  timer_init timer_calc job_create job_calc dup_ok table job_str m_str_cutoff a_step a_step_ties a_init mstep m_init clear_events pool_run pool_init running all_exited lstep deadlocked finished.
+  timer_init timer_calc job_create job_calc dup_ok table sched_str_thr sched_str_aio job_str m_str_cutoff a_step a_step_ties a_init mstep m_init clear_events pool_run pool_init running all_exited lstep deadlocked finished.
